@@ -120,6 +120,9 @@ class RecWorld(ConnWorld):
         self.streak = self.streak_ret = self.streak_succ = self.streak_start = 0
         self.streak_auth = False
         self.tags.add("on_connect")
+        if getattr(self, "connect_raises", False):
+            # the session is established all the same: nothing is reported as a failed attempt, no new attempt starts while it lives
+            raise RuntimeError("application on_connect callback failed")
 
     async def _on_disconnect(self, expected: bool) -> None:
         self.calls.append((self.loop.time(), "on_disconnect", bool(expected)))
@@ -301,15 +304,18 @@ def records(kind: str) -> list[Any]:
 
 
 class RecHarness:
-    def __init__(self, seed: tuple[str, ...], supplied_zc: bool = False, hostname: bool = False, key_text: str | None = None) -> None:
+    def __init__(self, seed: tuple[str, ...], supplied_zc: bool = False, hostname: bool = False, key_text: str | None = None,
+                 connect_raises: bool = False) -> None:
         self.seed = list(seed)
         self.supplied = supplied_zc
         self.hostname = hostname
         self.key_text = key_text
+        self.connect_raises = connect_raises  # the application's on_connect callback raises (after it has been recorded)
         self.can_fp = True
 
     def fresh(self) -> RecWorld:
         w = RecWorld(self.supplied, self.hostname, self.key_text)
+        w.connect_raises = self.connect_raises
         for lab in self.seed:
             self.apply(w, lab)
         return w
@@ -532,8 +538,8 @@ class RecHarness:
         w.close()
 
 
-def factory(seed: tuple[str, ...], supplied: bool = False, hostname: bool = False) -> RecHarness:
-    return RecHarness(seed, supplied, hostname)
+def factory(seed: tuple[str, ...], supplied: bool = False, hostname: bool = False, connect_raises: bool = False) -> RecHarness:
+    return RecHarness(seed, supplied, hostname, None, connect_raises)
 
 
 # ---------------------------------------------------------------------------------------------------
@@ -612,6 +618,8 @@ SEEDS: list[tuple[Any, ...]] = [
     (("rl_start", "tcp_refused"), False, True),
     (("rl_start", "tcp_ok", "hello_ok"), False, True),
     (("rl_start", "tcp_ok", "hello_ok", "rl_stop"), False),  # stopped, the session still alive
+    (("rl_start", "tcp_ok"), False, False, True),  # the application's on_connect callback raises
+    (("rl_start", "tcp_refused", "time", "tcp_ok"), False, False, True),
 ]
 
 
@@ -662,15 +670,17 @@ def run(tier: str, seed: int) -> Result:
     for i, cfg in enumerate(SEEDS):
         sd, supplied = cfg[0], cfg[1]
         hostname = bool(cfg[2]) if len(cfg) > 2 else False
+        connect_raises = bool(cfg[3]) if len(cfg) > 3 else False
         depth, bound = (4, 1) if q else (6, 2)
         left = max(5.0, (t_end - time.monotonic()) / (len(SEEDS) - i))
-        st = explore_parallel(factory, (sd, supplied, hostname), depth=depth, bound=bound, budget_s=left, split_depth=1)
-        per.append({"seed": list(sd), "application_zeroconf": supplied, "hostname_address": hostname, "depth_after_seed": depth, "deviation_bound": bound,
+        st = explore_parallel(factory, (sd, supplied, hostname, connect_raises), depth=depth, bound=bound, budget_s=left, split_depth=1)
+        per.append({"seed": list(sd), "application_zeroconf": supplied, "hostname_address": hostname, "on_connect_raises": connect_raises, "depth_after_seed": depth, "deviation_bound": bound,
                     "executions": st.executions, "states": st.states, "transitions": st.transitions, "time_capped": st.time_capped})
         for v in st.violations:
             clause = v["violated"][0]
             kind = ":".join(clause.split(":")[:2])[:70]
-            res.add(kind, clause, {"harness": "c18", "seed": list(sd), "supplied": supplied, "hostname": hostname, "choices": v["choices"], "violated": v["violated"],
+            res.add(kind, clause, {"harness": "c18", "seed": list(sd), "supplied": supplied, "hostname": hostname, "connect_raises": connect_raises,
+                                   "choices": v["choices"], "violated": v["violated"],
                                    "observations": v["observations"]})
         total.merge(st)
     need = {"on_connect", "end-expected", "end-unexpected", "just:start", "just:mdns", "just:unexpected-end", "just:expected-end+5", "just:backoff-2"}
@@ -712,7 +722,7 @@ def replay(rp: dict[str, Any]) -> bool:
         bad = [v for v in res.violations if v.key == rp["key"]]
         print(rp["key"], "->", "still violated" if bad else "holds")
         return not bad
-    h = factory(tuple(d["seed"]), d.get("supplied", False), d.get("hostname", False))
+    h = factory(tuple(d["seed"]), d.get("supplied", False), d.get("hostname", False), d.get("connect_raises", False))
     w = h.fresh()
     try:
         v: list[str] = []
